@@ -268,6 +268,25 @@ pub fn main(tier: Tier, replay: Option<String>) -> i32 {
             texts.push("q".repeat(n));
             texts.push(format!("東{}京", "q".repeat(n)));
         }
+        // words whose characters have different widths that average three bytes (2+4, 1+4+4, 2+3+4):
+        // nothing about a word's byte length says how wide its characters are
+        for (word, parts) in [("é𠮷", vec!["é", "𠮷"]), ("q𠮷𠮷", vec!["q", "𠮷", "𠮷"]), ("é東𠮷", vec!["é", "東", "𠮷"]), ("𠮷é", vec!["𠮷", "é"])] {
+            let mut ids = Vec::new();
+            for p in &parts {
+                let idx = match spec.system.iter().position(|r| r.surface == *p) {
+                    Some(i) => i,
+                    None => {
+                        spec.system.push(Row::new(p, 1, 1, 3000, P_NOUN));
+                        spec.system.len() - 1
+                    }
+                };
+                ids.push(idx.to_string());
+            }
+            let units = ids.join("/");
+            spec.system.push(Row::new(word, 1, 1, -30000, P_NOUN).splits("C", &units, &units));
+            texts.push(word.to_string());
+            texts.push(format!("東{}京", word));
+        }
         let w = Arc::new(World::build(spec).expect("W-many-units"));
         let tt = Arc::new(TextTree { world: w, label: "many-units".into(), alpha: vec![], bounds: TreeBounds::full(0), oracle: c09_oracle });
         let n = texts.len();
